@@ -493,6 +493,9 @@ class StreamResponse(
 
         assert self._payload_writer is not None, "Response has not been started"
 
+        if self._must_be_empty_body:
+            # HEAD, 1xx, 204, 304: like write(), send no body bytes
+            data = b""
         await self._payload_writer.write_eof(data)
         self._eof_sent = True
         self._req = None
